@@ -976,9 +976,22 @@ impl<'tcx> Interp<'tcx> {
     fn fact_of_src(&self, st: &State, s: &Src) -> Option<(Rc<str>, u64)> {
         let Src::Local(l, ver) = s else { return None };
         let fi = self.fi() as usize;
-        let key = st.frames[fi].callres.iter().find(|e| e.0 == *l && e.1 == *ver).map(|e| e.2.clone())?;
-        let g = st.facts.get(&key)?.2;
-        Some((key, g))
+        // the operand is usually a temporary copy of the variable that holds the call result
+        let (mut l, mut ver) = (*l, *ver);
+        for _ in 0..4 {
+            if let Some(key) = st.frames[fi].callres.iter().find(|e| e.0 == l && e.1 == ver).map(|e| e.2.clone()) {
+                let g = st.facts.get(&key)?.2;
+                return Some((key, g));
+            }
+            let org = st.frames[fi].origin.iter().find(|e| e.0 == l && e.1 == ver).cloned();
+            let Some((_, _, ptr, bver)) = org else { return None };
+            if !ptr.proj.is_empty() || ptr.frame as usize != fi || st.frames[fi].vers[ptr.local as usize] != bver {
+                return None;
+            }
+            l = ptr.local;
+            ver = bver;
+        }
+        None
     }
 
     /// the compared temporaries may be dead when the branch is taken; the path fact (same generation)
